@@ -53,7 +53,7 @@ GUARD_CFG = "servlin_verif"
 # which parts of the source (as named in the problem texts of props/srcparams.py) each property's model depends on
 SRC_DEPS = {
     "C01": ["src/head.rs"], "C02": ["src/head.rs"],
-    "C03": ["src/content_type.rs"],
+    "C03": ["src/content_type.rs", "src/request.rs"],
     "C04": ["src/util.rs", "src/http_conn.rs"], "C05": ["src/util.rs", "src/http_conn.rs"],
     "C06": ["src/util.rs", "src/content_type.rs"], "C07": ["src/util.rs"], "C08": ["src/util.rs"],
     "C09": ["src/util.rs", "src/http_conn.rs"], "C10": ["src/util.rs", "src/http_conn.rs"],
